@@ -246,6 +246,9 @@ func runC05(r *Report) {
 		"forwardToSourceNode:crossNodePool": "used only in the tunnelConnMgr == nil branch; the only caller, handleCrossNodeTargetConnection, returns early when tunnelConnMgr and crossNodePool are both nil (compound guard across two functions, confirmed by reading)",
 	})
 
+	// the per-connection record: RawConn / Stream are nil for some transports and after close
+	nilGuardBeliefT(r, "R-C05-4", sessPkg, "Connection", hp, 4, map[string]string{})
+
 	// ---- R-C05-5 no unchecked assertions on JSON-decoded data -----------------
 	n5 := 0
 	for _, g := range samePkgReach(hp, 4) {
@@ -440,7 +443,15 @@ func fieldDerefGuarded(r *Report, rule string, fn *ssa.Function, typ, field stri
 // or dereference through it in a function reachable from root must be
 // dominated by its non-nil test in that function, or the function must be
 // called only from sites dominated by such a test.
+func nilGuardBeliefT(r *Report, rule, pkg, typ string, root *ssa.Function, depth int, exceptions map[string]string) {
+	nilGuardBeliefImpl(r, rule, pkg, typ, root, depth, exceptions, false)
+}
+
 func nilGuardBelief(r *Report, rule, pkg, typ string, root *ssa.Function, depth int, exceptions map[string]string) {
+	nilGuardBeliefImpl(r, rule, pkg, typ, root, depth, exceptions, true)
+}
+
+func nilGuardBeliefImpl(r *Report, rule, pkg, typ string, root *ssa.Function, depth int, exceptions map[string]string, ctorExempt bool) {
 	optional := map[string]bool{}
 	for _, f := range r.P.FuncsIn(pkg) {
 		for _, b := range f.Blocks {
@@ -461,7 +472,7 @@ func nilGuardBelief(r *Report, rule, pkg, typ string, root *ssa.Function, depth 
 	}
 	// fields initialised (non-nil) on the freshly allocated object in a constructor are not optional
 	for _, f := range r.P.FuncsIn(pkg) {
-		if !strings.HasPrefix(f.Name(), "New") {
+		if !ctorExempt || !strings.HasPrefix(f.Name(), "New") {
 			continue
 		}
 		Instrs(f, func(in ssa.Instruction) {
